@@ -247,7 +247,7 @@ func Respell(bt *Built, how string, r *base.Rand) (RenderOpts, int) {
 	mentions := func(f *File, fn func(l *Line, u *Use)) {
 		for _, l := range f.flatLines() {
 			for _, u := range l.Uses {
-				if u.Kind == UTypeRef && u.T != nil && !u.T.Local && u.T.Pkg != f.Pkg {
+				if u.Kind == UTypeRef && u.T != nil && !u.T.Local && u.T.Pkg != f.Pkg && u.SpellAs == "" && exportedName(u.T.Name) {
 					fn(l, u)
 				}
 			}
@@ -267,7 +267,7 @@ func Respell(bt *Built, how string, r *base.Rand) (RenderOpts, int) {
 	case "paren":
 		okSub := map[string]bool{SubVar: true, SubParam: true, SubResult: true, SubField: true, SubOther: true}
 		return RenderOpts{Spell: func(l *Line, u *Use) string {
-			if l.File == nil || !isU[l.File.Pkg] || !okSub[u.Sub] || u.T.Local || strings.Contains(l.Text, "{{}}") || strings.Contains(l.Text, `{"k": {}}`) {
+			if l.File == nil || !isU[l.File.Pkg] || !okSub[u.Sub] || u.T.Local || u.SpellAs != "" || !exportedName(u.T.Name) || strings.Contains(l.Text, "{{}}") || strings.Contains(l.Text, `{"k": {}}`) {
 				return ""
 			}
 			if l.Feature == "" {
